@@ -145,6 +145,29 @@ def run(ctx):
             report("Repair differs from the model for declared name %r (%s): impl=%s model=%s" % (c["name"], c["fmt"], x[:80], y[:80]), replay, nf=True)
         if len(ctx.samples) < 6 and c["pos"] == 0 and c["name"] in ("a/../b", "../x", "sub/../../escaped.txt", ".", ".."):
             ctx.sample({"format": c["fmt"], "declared": c["name"], "repair": x.split(" trace=")[0], "changed": sorted(px["changed"])})
+    # ---- 3b. the same Repairs and Verifies under strace: every file-system call of the operation - not only what is left on
+    # disk - must stay below the archive's directory, and only non-archive paths below it may be written ----
+    from . import osfoot
+    fcs = []
+    for c in cases:
+        arch = {p_ for p_ in c["fs"] if p_.endswith(".par2") or p_.endswith(".par") or ".p0" in p_ or "canary" in p_}
+        fcs.append({"line": c["rline"], "op": "repair", "writes": set(), "writes_prefix": DEEP + "/", "forbidden": arch, "below": DEEP,
+                    "desc": "%s repair, declared name %r" % (c["fmt"], c["name"]), "case": c})
+        if c["pos"] == 0:
+            fcs.append({"line": c["vline"], "op": "verify", "writes": set(), "below": DEEP, "desc": "%s verify, declared name %r" % (c["fmt"], c["name"]), "case": c})
+    try:
+        _, judged = osfoot.run(ctx, vh, fcs)
+    except Exception as e:
+        judged = []
+        dist["syscall_footprint"] = "not run: %s" % str(e)[:200]
+    for fc, msgs in judged:
+        dist["syscall_footprint_cases"] = dist.get("syscall_footprint_cases", 0) + 1
+        if fc.get("reads_outside"):
+            dist["cases_with_failed_reads_outside_the_directory"] = dist.get("cases_with_failed_reads_outside_the_directory", 0) + 1
+        ctx.count("foot|%s|%r|%d|%s" % (fc["case"]["fmt"], fc["case"]["name"], fc["case"]["pos"], fc["op"]), True)
+        if msgs:
+            report("%s: %s" % (fc["desc"], "; ".join(sorted(set(msgs))[:4])),
+                   {"lines": [fc["line"]], "mode": "real", "declared_name": fc["case"]["name"], "messages": sorted(set(msgs))[:20], "class": {"part": "syscall-footprint"}})
     # ---- 4. Create refuses inputs outside the index file's directory tree ----
     ok_in = {P.DIR + "/in.dat": b"inside", "/w/out.dat": b"outside", "/w/set2/x": b"sibling"}
     clines = [("outside: parent directory", L.line_create("p2", "mem", P.DIR + "/c.par2", 4, 1, 1, ["/w/out.dat"], ok_in)),
@@ -161,7 +184,7 @@ def run(ctx):
             report("Create containment differs from the model (%s): impl=%s model=%s" % (what, i[:80], m[:80]), {"lines": [line], "impl": i[:600], "model": m[:600], "class": {"part": "create"}}, nf=True)
     return ctx.finish(
         "proof",
-        rule="(1) the path model vs Go's path.Clean/IsAbs/Ext, filepath.Dir/Base/Join and gopar's checkFilename on EVERY string over {a . /} up to length 7 (thorough 8) plus unicode, NUL, backslash, long runs; (2) fully repairable PAR2 archives by the independent writer whose declared names come from a traversal corpus (49 spellings: ../x, a/../../x, /abs, ., .., empty, ..a, trailing slash, backslashes, NUL ..., and NEAR MISSES that leave the directory only if the name is normalised after validation: surrounding white space, control / escaped characters inside the dot-dot) at every position of the set, declared files missing, on a real directory seven levels deep with canary files at every level; (3) the same for PAR1 entries; (4) Create with inputs outside the index directory; non-trivial = the declared name is not its own clean inside name",
+        rule="(1) the path model vs Go's path.Clean/IsAbs/Ext, filepath.Dir/Base/Join and gopar's checkFilename on EVERY string over {a . /} up to length 7 (thorough 8) plus unicode, NUL, backslash, long runs; (2) fully repairable PAR2 archives by the independent writer whose declared names come from a traversal corpus (49 spellings: ../x, a/../../x, /abs, ., .., empty, ..a, trailing slash, backslashes, NUL ..., and NEAR MISSES that leave the directory only if the name is normalised after validation: surrounding white space, control / escaped characters inside the dot-dot) at every position of the set, declared files missing, on a real directory seven levels deep with canary files at every level; (3) the same for PAR1 entries; (3b) all these Repairs and a third of the Verifies again under strace: every create/truncate/rename/unlink/mkdir/chmod between the harness markers targets a non-archive path below the archive's directory (reads outside it - PAR1 accepts the entry name '..', whose read fails - are counted in the evidence, not judged: the property speaks of creating, modifying and deleting); (4) Create with inputs outside the index directory; non-trivial = the declared name is not its own clean inside name",
         exhaustive=True,
         extra={"input_distribution": dist,
                "predicate": "after Verify and Repair nothing outside the archive's directory tree (PAR1: directory) was created, modified or deleted (whole scratch tree snapshotted); archive and canary files untouched",
